@@ -530,7 +530,8 @@ def run(ctx):
             # the hook adds a particle: only integrators that refresh the
             # neighbour search before they use it again
             idxs = [i for i in idxs if 'update_nnps=False' not in bodies[i]]
-        if not ctx.thorough and w > 0:
+        if not ctx.thorough and w in (1, 2):
+            # (every generated integrator with wirings 0, 3, 4, 5)
             idxs = idxs[(ctx.seed + w) % 3::3]
         for i in range(0, len(idxs), 6):
             gjobs.append((idxs[i:i + 6], ctx.thorough, w))
